@@ -67,6 +67,38 @@ structure Lit where
   hashOk : Bool := true
 deriving DecidableEq, Repr
 
+/-! ### which literals `rfc822.GetMessageHash` can hash (`Lit.hashOk`)
+
+`GetMessageHash` walks the leaf parts and calls `hashBody` on each; the first error aborts.
+`hashBody` undoes the transfer encoding of `text/plain` and `text/html` leaves only (a leaf
+without Content-Type counts as text/plain): `base64` and `quoted-printable` are decoded (the header
+value is lower-cased first), anything else is taken as it is; every other MIME type is hashed
+undecoded.  So hashing fails exactly when some text leaf declares base64 / quoted-printable and
+its body is not well formed in that encoding (a character outside the base64 alphabet, a
+truncated base64 quantum, a raw control byte in quoted-printable).  Such a literal still passes
+`rfcvalidation` and `imap.NewParsedMessage` (neither decodes bodies): it reaches the recovery path. -/
+
+/-- the Content-Transfer-Encodings `hashBody` tells apart -/
+inductive Cte where
+  | none | base64 | qp | other
+deriving DecidableEq, Repr
+
+/-- a leaf part as `hashBody` sees it -/
+structure Leaf where
+  /-- MIME type text/plain or text/html (or no Content-Type) -/
+  text : Bool
+  cte : Cte
+  /-- the body is well formed in the declared encoding -/
+  decodes : Bool
+deriving DecidableEq, Repr
+
+/-- `hashBody` succeeds on this leaf -/
+def Leaf.hashOk (p : Leaf) : Bool :=
+  !(p.text && (p.cte == .base64 || p.cte == .qp) && !p.decodes)
+
+/-- `GetMessageHash` succeeds (given that the headers parse): every leaf can be hashed -/
+def leavesHashOk (ps : List Leaf) : Bool := ps.all Leaf.hashOk
+
 /-- equal up to the X-Pm-Gluon-Id header line gluon rewrites -/
 def Lit.sameBytes (a b : Lit) : Prop := a.hv = b.hv ∧ a.uv = b.uv
 
@@ -565,6 +597,14 @@ def copy (s : St) (src : String) (uids : List Nat) (dst : String) : CopyRes × S
         | (.error e, s) => (.no e, s)
         | (.ok duids, s) => (.ok (sel.map (·.1)) duids, s)
 
+/-- the source UIDs `Mailbox.Move` reports in COPYUID: all selected ones, unless fewer destination
+    UIDs came back than messages were selected — then only those whose internal ID is among the
+    destination's.  Out of the recovery mailbox the destination holds *other* internal IDs (the
+    imported / de-duplicated messages), so in that case no source UID is left: the server answers
+    `[COPYUID v  <dst>]` with an empty source set (what the code does; `Mailbox.Copy` has no such filter). -/
+def moveSrcUids (src : String) (sel : List (Nat × Nat)) (duids : List Nat) : List Nat :=
+  if src == recName && duids.length != sel.length then [] else sel.map (·.1)
+
 /-- `Mailbox.Move` -/
 def move (s : St) (src : String) (uids : List Nat) (dst : String) : CopyRes × St :=
   match getBox s.db src with
@@ -580,7 +620,7 @@ def move (s : St) (src : String) (uids : List Nat) (dst : String) : CopyRes × S
         let r := withTx s (fun s => if src == recName then moveOutOfRecovery s ids dst else actionMove s src dst ids)
         match r with
         | (.error e, s) => (.no e, s)
-        | (.ok duids, s) => (.ok (sel.map (·.1)) duids, s)
+        | (.ok duids, s) => (.ok (moveSrcUids src sel duids) duids, s)
 
 /-- STORE +FLAGS (\Deleted) on `uids`, then `Mailbox.Expunge` of them -/
 def expunge (s : St) (src : String) (uids : List Nat) : Option Err × St :=
